@@ -40,6 +40,6 @@ def stopAt : Option Nat → Nat → Bool
   | none, _ => false
   | some t0, t => decide (t0 ≤ t)
 
-def rq (t0 : Option Nat) : Result ℚ Unit := run Pq dirNoop () prq (stopAt t0) false [1] [] [] [] [] 0
+def rq (t0 : Option Nat) : Result ℚ Unit := run Pq dirNoop () prq (stopAt t0) false [1] [] [] [] [] 0 0
 
 end Alpaqa.Panoc.Example
